@@ -47,7 +47,9 @@
 #include <sys/wait.h>
 
 static const char * NAMES[] = { "File_Name", "File_Description", "File_Schema", "FILE_NAME", "file_schema",
-                                "No_Such_Entity", "File_Population" };
+                                "No_Such_Entity", "File_Population",
+                                // proper prefixes / extensions of real entity names: must match nothing
+                                "File", "File_Nam", "File_Name_Extra", "File_S" };
 static const int NNAMES = sizeof( NAMES ) / sizeof( NAMES[0] );
 
 enum Where { IN_MGR = 0, FREED = 1, DETACHED = 2 };
